@@ -351,6 +351,7 @@ def S4(inp, chunks, event, lose=False, observer=False):
             whole_again = whole_again + ch[0]
         cl['second_transfer_starts_from_the_beginning'] = exc_again is None and len(again) >= 1 and again[0][1] is True and again[-1][2] is True \
             and bool(whole_again.whole(('image', 1), size1))
+    cl['snapshot_messages_say_which_code_version_they_need'] = all(m.get('snapshot_version') == 0 for nd, m in tr.sent if m.get('serialized') is not None)
     cl['snapshot_messages_say_where_the_snapshot_ends'] = all(m.get('snapshot_last') is not None and bool(And(Eq(m['snapshot_last'][0], 5), Eq(m['snapshot_last'][1], 1))) for nd, m in tr.sent if m.get('serialized') is not None)
     acks = [m for nd, m in ftr.sent if m['type'] == 'next_node_idx' and m['success'] is True]
     cl['success_ack_only_after_install'] = (len(acks) >= 1 and bool(Eq(acks[0]['next_node_idx'], 6))) if installed else len(acks) == 0
@@ -525,9 +526,13 @@ def S6(inp):
     return Res(cl, nontrivial=name != 'running', obs=lambda: dict(wait=name, log=[e[1] for e in log], pid=ser._Serializer__pid))
 
 
-@obligation('RI', props=('C01', 'C09', 'C04', 'C02'), quick=[dict(n=2), dict(n=3)], thorough=[dict(n=2), dict(n=3), dict(n=4), dict(n=5)], stubs=_STUBS,
+_RI_MODES = ('plain', 'corrupt', 'newer', 'side_effects', 'no_position')
+
+
+@obligation('RI', props=('C01', 'C09', 'C04', 'C02'), quick=[dict(n=2, mode=m) for m in _RI_MODES] + [dict(n=3, mode='plain')],
+            thorough=[dict(n=n, mode=m) for n in (2, 3, 4) for m in _RI_MODES] + [dict(n=5, mode='plain')], stubs=_STUBS,
             bounds='follower in any well-formed state with n<=4 entries; the last chunk of a snapshot taken at any index d in 2..6, above or below the follower commit and applied index (terms symbolic), leader commit any value >= d; earlier chunks present or missing')
-def RI(inp, n):
+def RI(inp, n, mode='plain'):
     """snapshot installation on a follower: only a complete transfer of a snapshot above the commit index is installed (a stale one
     changes nothing and is answered with commit+1); then the log is exactly the two snapshot
     entries, the applied index is the snapshot position, the user state is the snapshot's, indices do not move backwards and the
@@ -561,7 +566,9 @@ def RI(inp, n):
     ser.setTransmissionData = set_tx
     own_stored = Token(('this node\'s own stored snapshot',))
     ser._Serializer__inMemorySerializedData = own_stored
-    corrupt = inp.flag('image_cannot_be_decoded')
+    # mode: one deviation at a time (task parameter, not a case split inside the task)
+    newer = mode == 'newer'                 # taken after a switch to a code version this node's code lacks
+    corrupt = mode == 'corrupt'             # the received bytes cannot be decoded
     if corrupt:
         image = Blob.fresh(('garbage',), 5)          # e.g. chunks of two different snapshots glued together
     # the last own compaction was taken at this very position: a renewal must not be skipped as "nothing new"
@@ -575,9 +582,10 @@ def RI(inp, n):
     wc[cov_idx].append((inp.int('cb_term', 0, 5), rec_cov))
     wc[d + 1].append((mterm, rec_above))
     msg = {'type': 'append_entries', 'term': mterm, 'commit_index': mci, 'serialized': (Blob(), False, True), 'snapshot_last': (d, dt1)}
-    if inp.flag('leader_without_position'):
+    msg['snapshot_version'] = get(o, 'selfCodeVersion') + 1 if newer else 0       # (own version is 1 here: ReplList has a ver=1 method)
+    if mode == 'no_position':
         del msg['snapshot_last']                 # a leader running older code: the follower has to read the snapshot to know
-    side_effects = inp.flag('deserializer_restores_state')
+    side_effects = mode in ('newer', 'side_effects')
     if side_effects:
         # a user-supplied deserializer restores the object while it reads the file: reading a snapshot that will not be installed
         # must not happen when the leader said where it ends
@@ -598,7 +606,11 @@ def RI(inp, n):
     # the snapshot's last entry is in the local log already (within the committed prefix, or same index and term): it carries
     # nothing new, the leader acted on an outdated reply
     stale = Or(d <= p.commit, so.has_entry(p.log, d, dt1))
-    if started and corrupt:
+    if started and newer:
+        # C17: refused before it is read (a user deserializer restores the object as it reads): nothing changes, nothing is acknowledged
+        cl['snapshot_of_a_newer_version_changes_nothing'] = And(so.logs_equal(p.log, q.log) if len(p.log) == len(q.log) else False, Eq(q.applied, p.applied), Eq(q.commit, p.commit), Eq(o.x, -1))
+        cl['snapshot_of_a_newer_version_not_acknowledged'] = len(acks) == 0
+    elif started and corrupt:
         # a snapshot that cannot be loaded installs nothing and verifies nothing: no acknowledgement, no commit advance (C02/C04)
         cl['undecodable_snapshot_changes_nothing'] = And(so.logs_equal(p.log, q.log) if len(p.log) == len(q.log) else False, Eq(q.applied, p.applied), Eq(q.commit, p.commit), Eq(o.x, -1))
         # (told where it ends, the follower does not even read a snapshot that ends inside its log: that one is answered like any stale one)
@@ -628,7 +640,7 @@ def RI(inp, n):
         # C06/C09: only a snapshot that is installed becomes the stored one - a stale or unreadable one must not replace this node's
         # (newer) stored snapshot, not even until the next compaction: a kill in between would restart the node behind its own log
         stored = ser._Serializer__inMemorySerializedData
-        if corrupt:
+        if corrupt or newer:
             cl['stored_snapshot_kept_unless_installed'] = stored is own_stored
         else:
             cl['stored_snapshot_kept_unless_installed'] = And(Implies(stale, stored is own_stored), Implies(Not(stale), stored is image))
